@@ -209,6 +209,37 @@ def check_grids(ctx):
         enc = lambda b: "-" if b is None else str(f2b(b))
         lines.append(f"geo rectbox {fl(pts[pidx])} {enc(bounds[0])} {enc(bounds[1])} {enc(bounds[2])} {enc(bounds[3])} {enc(bounds[4])} {enc(bounds[5])}")
         metas.append((bool(sel.ravel()[pidx]), {**cj, "bounds": bounds, "point": pts[pidx].tolist()}))
+    # rectbox, boundary stream: bounds taken from special values (zeros of either sign and type, values on and between the
+    # lattice, infinities) on a lattice that straddles zero, through the module function and the Points / Grid methods
+    special = [None, None, 0, 0.0, -0.0, 1, -1.0, 0.5, 2.0, -2, float("inf"), float("-inf"), np.float64(0.0), np.int64(0)]
+    lat = g.Grid(-2.0, 2.0, -2.0, 2.0, -2.0, 2.0, 1.0)
+    lat_pts = lat.to_1d_points()
+    for _ in range(60 * ctx.scale):
+        bounds = [special[int(rng.integers(0, len(special)))] for _ in range(6)]
+        names = ("xmin", "xmax", "ymin", "ymax", "zmin", "zmax")
+        kw = {n_: b for n_, b in zip(names, bounds) if b is not None or rng.random() < 0.5}
+        cj = {"op": "points_in_rectbox", "lattice": "integers -2..2 cubed", "bounds": {k_: (None if v is None else float(v)) for k_, v in kw.items()},
+              "bound_types": {k_: type(v).__name__ for k_, v in kw.items()}}
+        ctx.case(("rectbox_special", tuple((k_, None if v is None else (float(v), math.copysign(1, float(v)), type(v).__name__)) for k_, v in kw.items())), True)
+        ctx.count("rectbox:zero_bound" if any(v is not None and float(v) == 0 for v in kw.values()) else "rectbox:no_zero_bound")
+        C = lat_pts.coords
+        exp = np.ones(len(C), dtype=bool)
+        for n_, b in kw.items():
+            if b is not None:
+                col = C[:, "xyz".index(n_[0])]
+                exp &= (float(b) <= col) if n_.endswith("min") else (col <= float(b))
+        got = {"function": g.points_in_rectbox(C[:, 0], C[:, 1], C[:, 2], **kw),
+               "Points method": lat_pts.points_in_rectbox(**kw),
+               "Grid method": np.asarray(lat.points_in_rectbox(**kw)).ravel()}
+        for who, sel in got.items():
+            if not np.array_equal(np.asarray(sel, dtype=bool), exp):
+                ctx.violate(f"points_in_rectbox ({who}) does not return exactly the points within the inclusive bounds: {int(np.sum(sel))} selected, {int(exp.sum())} expected",
+                            cj, {"kind": "rectbox"})
+                break
+        pidx = int(rng.integers(0, len(C)))
+        enc = lambda b: "-" if b is None else str(f2b(float(b)))
+        lines.append("geo rectbox " + fl(C[pidx]) + " " + " ".join(enc(kw.get(n_)) for n_ in ("xmin", "xmax", "ymin", "ymax", "zmin", "zmax")))
+        metas.append((bool(got["function"][pidx]), {**cj, "point": C[pidx].tolist()}))
     # centred grids
     for _ in range(40 * ctx.scale):
         size = float(rng.uniform(0, 0.03)) if rng.random() < 0.8 else 0.0
